@@ -1,6 +1,7 @@
 import SigpyVerif.Model.C06
 import SigpyVerif.Props.C07
 import SigpyVerif.Props.C09
+import SigpyVerif.Lemmas.C06
 import Mathlib.Analysis.InnerProductSpace.Basic
 import Mathlib.Analysis.SpecialFunctions.Pow.Real
 import Mathlib.Analysis.SpecialFunctions.Complex.Log
@@ -16,10 +17,16 @@ import Mathlib.Tactic.FieldSimp
 
   * the three sites that compute the oversampled length agree (`os_sites_agree`), padding never crops
     (`oversampLen_ge`);
-  * the two pipelines have conjugate-consistent scalings (`scale_consistency`) and, given the stage facts owned
-    by other properties as hypotheses (real apodisation weights; Resize pad/crop adjoint pair — C09/C01;
-    `uIFFT · ΠosN = uFFTᴴ` — C05; gridding = interpolationᵀ with real weights — C07), `nufft_adjoint` is
-    exactly the adjoint of `nufft` (`nufft_adjoint_is_adjoint`);
+  * the two pipelines have conjugate-consistent scalings (`scale_consistency`) and `nufft_adjoint` is exactly the adjoint
+    of `nufft`: abstractly, given the stage facts as hypotheses (`pipeline_adjoint`, `nufft_adjoint_is_adjoint`), and
+    CONCRETELY with every stage fact discharged (`nufft_adjoint_is_adjoint_1d`, `…_1d_code`; two transform axes in
+    Props/C06Nd.lean): the pipeline on `ℂ^N → ℂ^L → ℂ^M` is built from a real diagonal apodisation, C09's zero-pad / crop
+    (`resizeMat`, adjoint pair by `C09.resize_transpose` / `resize_transpose_nd`), C05's centred DFT matrices
+    (`L · uIFFT = uFFTᴴ` by `C05.idftMatrix_eq_conjTranspose`) and C07's generated update lists `Gen.interp1` /
+    `Gen.grid1` with real weights run with C07's `runUpd` (`C07.grid1_eq_transpose_interp1`, `C07.transpose_pairing`,
+    `C07.interp1_in_bounds`).  Remaining assumptions: the apodisation weights are real numbers and the kernel is a
+    real-valued function (bridging lemmas: Lemmas/C06.lean);
+  * the Toeplitz normal operator (`toeplitz_psf`, `NUFFT._normal_linop`): Props/C06Toeplitz.lean;
   * periodicity: moving a coordinate by a whole number of image periods moves the scaled coordinate by
     whole periods of the oversampled grid (`scaleCoord_period`) and leaves the interpolation update list
     literally unchanged (`nufft_periodic1/2/3`, using C07's `interpD_shift_period`); the exact transform
@@ -221,5 +228,142 @@ theorem nufft_adjoint_is_adjoint (A : X →ₗ[ℂ] X) (R : X →ₗ[ℂ] G) (Rt
   pipeline_adjoint A R Rt F Fi I Gr _ _ _ (prodOs : ℝ) hA hR hF hI (scale_consistency prodOs prodN width ndim).1 x y
 
 end pipeline
+
+/-! ### the concrete 1-D pipeline: every stage fact discharged (C05, C09, C07) -/
+
+section concrete1d
+open Matrix
+
+/-- the root of unity of numpy's forward transform of length `L`: `exp(-2πi/L)` -/
+noncomputable def fftRoot (L : ℕ) : ℂ := (Complex.exp (2 * Real.pi * Complex.I / L))⁻¹
+
+theorem fftRoot_primitive (L : ℕ) (hL : 0 < L) : IsPrimitiveRoot (fftRoot L) L :=
+  (Complex.isPrimitiveRoot_exp L hL.ne').inv
+
+/-- `_apodize` on one axis: multiplication by a REAL weight per image sample -/
+noncomputable def apodLin (N : ℕ) (a : Fin N → ℝ) : EuclideanSpace ℂ (Fin N) →ₗ[ℂ] EuclideanSpace ℂ (Fin N) :=
+  Matrix.toEuclideanLin (Matrix.diagonal fun n => ((a n : ℝ) : ℂ))
+
+/-- `util.resize(output, os_shape)` / `util.resize(output, oshape)`: C09's model with default shifts -/
+noncomputable def resizeLin (i o : ℕ) : EuclideanSpace ℂ (Fin i) →ₗ[ℂ] EuclideanSpace ℂ (Fin o) :=
+  Matrix.toEuclideanLin (resizeMat i o)
+
+/-- `fft(output, norm=None)`: C05's centred DFT matrix with scale 1 -/
+noncomputable def ufftLin (L : ℕ) : EuclideanSpace ℂ (Fin L) →ₗ[ℂ] EuclideanSpace ℂ (Fin L) :=
+  Matrix.toEuclideanLin (C05.dftMatrix (fftRoot L) L true 1)
+
+/-- `ifft(output, norm=None)`: C05's centred inverse DFT matrix with numpy's scale `1/L` -/
+noncomputable def uifftLin (L : ℕ) : EuclideanSpace ℂ (Fin L) →ₗ[ℂ] EuclideanSpace ℂ (Fin L) :=
+  Matrix.toEuclideanLin (C05.dftMatrix (fftRoot L)⁻¹ L true (1 / L))
+
+/-- shapes `[a, b]` as the kernels read them (`shape[0]`, `shape[1]`) -/
+def shape2 (a b : ℤ) : ℤ → ℤ := fun k => if k = 0 then a else b
+
+/-- `interp.interpolate` on one axis, batch size 1: C07's generated update list `Gen.interp1` (grid length `L`,
+    `M` points), each rational weight / kernel argument sent through the real-valued `wt` and applied to
+    complex data with `+=` (C07's `runUpd`).  Kaiser–Bessel: `K = fun u _ => u`, `wt = kb_β ∘ cast`;
+    spline: `K = Gen.splineKernel`, `wt = cast`. -/
+noncomputable def interpLin (K : Rat → Rat → Rat) (wt : Rat → ℝ) (L M : ℕ) (coord : Int → Int → Rat)
+    (width param : Int → Rat) : EuclideanSpace ℂ (Fin L) →ₗ[ℂ] EuclideanSpace ℂ (Fin M) :=
+  updLin (cw wt (Gen.interp1 K (shape2 1 M) (shape2 1 L) (shape2 M 1) coord width param)) L M
+
+/-- `interp.gridding`: C07's generated `Gen.grid1`, same conventions -/
+noncomputable def gridLin (K : Rat → Rat → Rat) (wt : Rat → ℝ) (L M : ℕ) (coord : Int → Int → Rat)
+    (width param : Int → Rat) : EuclideanSpace ℂ (Fin M) →ₗ[ℂ] EuclideanSpace ℂ (Fin L) :=
+  updLin (cw wt (Gen.grid1 K (shape2 1 L) (shape2 1 M) (shape2 M 1) coord width param)) M L
+
+/-- real diagonal: self-adjoint -/
+theorem apod_selfadjoint (N : ℕ) (a : Fin N → ℝ) (u v : EuclideanSpace ℂ (Fin N)) :
+    ⟪apodLin N a u, v⟫_ℂ = ⟪u, apodLin N a v⟫_ℂ := by
+  unfold apodLin
+  have h : (star fun n : Fin N => ((a n : ℝ) : ℂ)) = fun n => ((a n : ℝ) : ℂ) := by
+    funext n
+    simp only [Pi.star_apply, RCLike.star_def, Complex.conj_ofReal]
+  rw [inner_toEuclideanLin, Matrix.diagonal_conjTranspose, h]
+
+/-- zero-pad and crop are an adjoint pair (C09: `resize_transpose`, `resize_default_swap`) -/
+theorem resize_adjoint (i o : ℕ) (u : EuclideanSpace ℂ (Fin i)) (v : EuclideanSpace ℂ (Fin o)) :
+    ⟪resizeLin i o u, v⟫_ℂ = ⟪u, resizeLin o i v⟫_ℂ := by
+  unfold resizeLin
+  rw [inner_toEuclideanLin, resizeMat_conjTranspose]
+
+/-- `L · uIFFT = uFFTᴴ` (C05: `idftMatrix_eq_conjTranspose`) -/
+theorem ufft_adjoint (L : ℕ) (hL : 0 < L) (u v : EuclideanSpace ℂ (Fin L)) :
+    ⟪ufftLin L u, v⟫_ℂ = ⟪u, (((L : ℤ) : ℝ) : ℂ) • uifftLin L v⟫_ℂ := by
+  unfold ufftLin uifftLin
+  rw [inner_toEuclideanLin, ← C05.idftMatrix_eq_conjTranspose (fftRoot_primitive L hL) true 1,
+    ← LinearMap.smul_apply, ← map_smul]
+  congr 3
+  ext k j
+  simp only [C05.dftMatrix, Matrix.smul_apply, Matrix.of_apply, smul_eq_mul]
+  have : (L : ℂ) ≠ 0 := by exact_mod_cast hL.ne'
+  push_cast
+  field_simp
+
+/-- gridding = interpolationᴴ (C07: `grid1_eq_transpose_interp1`, `transpose_pairing`, `interp1_in_bounds`) -/
+theorem interp_adjoint (K : Rat → Rat → Rat) (wt : Rat → ℝ) (L M : ℕ) (hL : 0 < L) (coord : Int → Int → Rat)
+    (width param : Int → Rat) (u : EuclideanSpace ℂ (Fin L)) (v : EuclideanSpace ℂ (Fin M)) :
+    ⟪interpLin K wt L M coord width param u, v⟫_ℂ = ⟪u, gridLin K wt L M coord width param v⟫_ℂ := by
+  unfold interpLin gridLin
+  rw [C07.grid1_eq_transpose_interp1, cw_swap]
+  have hb : ∀ w ∈ cw wt (Gen.interp1 K (shape2 1 M) (shape2 1 L) (shape2 M 1) coord width param),
+      (∃ j : Fin M, w.1 = [0, ((j : ℕ) : ℤ)]) ∧ (∃ s : Fin L, w.2.1 = [0, ((s : ℕ) : ℤ)]) := by
+    intro w hw
+    obtain ⟨v', hv', rfl⟩ := List.mem_map.mp hw
+    obtain ⟨b, j, s, h1, h2, hb0, hb1, hj0, hj1, hs0, hs1⟩ :=
+      C07.interp1_in_bounds K (shape2 1 M) (shape2 1 L) (shape2 M 1) coord width param
+        (by simp only [shape2]; norm_num; exact_mod_cast hL) v' hv'
+    simp only [shape2] at hb1 hj1 hs1
+    norm_num at hb1 hj1 hs1
+    have hb : b = 0 := by omega
+    subst hb
+    refine ⟨⟨⟨j.toNat, by omega⟩, ?_⟩, ⟨⟨s.toNat, by omega⟩, ?_⟩⟩
+    · simp only [h1, Int.toNat_of_nonneg hj0]
+    · simp only [h2, Int.toNat_of_nonneg hs0]
+  exact updLin_adjoint _ L M (cw_real wt _) (fun w hw => (hb w hw).1) (fun w hw => (hb w hw).2) u v
+
+/-- `nufft` on one axis, assembled from the concrete stages with the code's constants -/
+noncomputable def nufft1 (os : Rat) (N L M : ℕ) (a : Fin N → ℝ) (K : Rat → Rat → Rat) (wt : Rat → ℝ)
+    (c : Int → Int → Rat) (W : Rat) (param : Int → Rat) (x : EuclideanSpace ℂ (Fin N)) : EuclideanSpace ℂ (Fin M) :=
+  fwd (apodLin N a) (resizeLin N L) (ufftLin L)
+    (interpLin K wt L M (fun j k => Gen.scaleCoord os N (c j k)) (fun _ => W) param)
+    (Gen.nufftFwdDiv Real.sqrt (N : ℤ)) (Gen.nufftFwdWidthDiv Real.sqrt (W : ℝ) 1) x
+
+/-- `nufft_adjoint` on one axis -/
+noncomputable def nufftAdjoint1 (os : Rat) (N L M : ℕ) (a : Fin N → ℝ) (K : Rat → Rat → Rat) (wt : Rat → ℝ)
+    (c : Int → Int → Rat) (W : Rat) (param : Int → Rat) (y : EuclideanSpace ℂ (Fin M)) : EuclideanSpace ℂ (Fin N) :=
+  adj (apodLin N a) (resizeLin L N) (uifftLin L)
+    (gridLin K wt L M (fun j k => Gen.scaleCoord os N (c j k)) (fun _ => W) param)
+    (Gen.nufftAdjMul Real.sqrt (L : ℤ) (N : ℤ)) (Gen.nufftAdjWidthDiv Real.sqrt (W : ℝ) 1) y
+
+/-- **`nufft_adjoint` is exactly the adjoint of `nufft` (one transform axis), no stage fact assumed.**
+    The pipeline is built from: a real diagonal apodisation `a` (real weights: the only assumption on `_apodize`),
+    C09's zero-pad / crop with default shifts, C05's centred unnormalised DFT / numpy-normalised inverse DFT matrices
+    of the oversampled length `L > 0` (for sigpy `L = ceil(os·N)`, positive by `oversampLen_ge`), and C07's generated
+    update lists `Gen.interp1` / `Gen.grid1` on the coordinates `Gen.scaleCoord os N c_j` with weights sent through a
+    REAL-valued function `wt` (the only assumption on the Kaiser–Bessel kernel: it is real-valued), with the scalings
+    `Gen.nufftFwdDiv`, `Gen.nufftFwdWidthDiv`, `Gen.nufftAdjMul`, `Gen.nufftAdjWidthDiv` generated from the code.
+    Then `⟪nufft x, y⟫ = ⟪x, nufft_adjoint y⟫` for all `x ∈ ℂ^N`, `y ∈ ℂ^M`. -/
+theorem nufft_adjoint_is_adjoint_1d (os : Rat) (N L M : ℕ) (hL : 0 < L) (a : Fin N → ℝ) (K : Rat → Rat → Rat)
+    (wt : Rat → ℝ) (c : Int → Int → Rat) (W : Rat) (param : Int → Rat)
+    (x : EuclideanSpace ℂ (Fin N)) (y : EuclideanSpace ℂ (Fin M)) :
+    ⟪nufft1 os N L M a K wt c W param x, y⟫_ℂ = ⟪x, nufftAdjoint1 os N L M a K wt c W param y⟫_ℂ :=
+  nufft_adjoint_is_adjoint _ _ _ _ _ _ _ (L : ℤ) (N : ℤ) (W : ℝ) 1 (apod_selfadjoint N a) (resize_adjoint N L)
+    (ufft_adjoint L hL) (interp_adjoint K wt L M hL _ _ _) x y
+
+/-- the oversampled length sigpy uses is positive for a non-empty image and `oversamp ≥ 1` -/
+theorem oversampLen_pos (os : Rat) (N : ℕ) (hN : 0 < N) (hos : 1 ≤ os) : 0 < (Gen.oversampLen os N).toNat := by
+  have := oversampLen_ge os N hos (by omega)
+  omega
+
+/-- the same with sigpy's grid length `L = ceil(os·N)` (`Gen.oversampLen`) -/
+theorem nufft_adjoint_is_adjoint_1d_code (os : Rat) (N M : ℕ) (hN : 0 < N) (hos : 1 ≤ os) (a : Fin N → ℝ)
+    (K : Rat → Rat → Rat) (wt : Rat → ℝ) (c : Int → Int → Rat) (W : Rat) (param : Int → Rat)
+    (x : EuclideanSpace ℂ (Fin N)) (y : EuclideanSpace ℂ (Fin M)) :
+    ⟪nufft1 os N (Gen.oversampLen os N).toNat M a K wt c W param x, y⟫_ℂ =
+      ⟪x, nufftAdjoint1 os N (Gen.oversampLen os N).toNat M a K wt c W param y⟫_ℂ :=
+  nufft_adjoint_is_adjoint_1d os N _ M (oversampLen_pos os N hN hos) a K wt c W param x y
+
+end concrete1d
 
 end SigpyVerif.C06
